@@ -49,4 +49,46 @@ func checkLayerMutatorsUnconditional(c *core.Ctx) {
 		})
 		c.Decide(len(reads) == 0, "C11.net-effect", fn, "recording does not depend on the layer's (or the backing store's) current contents", c.P.Rel(fn.Pos()), sprintf("%d read(s) before recording", len(reads)))
 	}
+	checkCommitForwardsAll(c)
+}
+
+// checkCommitForwardsAll: CacheDB.Commit carries a successful transaction's
+// cache into the block overlay — the block's write set.  Every cached entry must
+// be forwarded (Put, or Delete for an empty value) without looking at what the
+// overlay currently shows: "skip the Put when the visible value is already the
+// same" makes membership in the write set depend on earlier state.
+func checkCommitForwardsAll(c *core.Ctx) {
+	const rule = "C11.net-effect"
+	fn := c.Fn(pkNatStorage, "CacheDB.Commit")
+	if fn == nil {
+		return
+	}
+	isFwd := func(ci ssa.CallInstruction) bool {
+		o := ir.CalleeObj(ci)
+		return o != nil && (o.Name() == "Put" || o.Name() == "Delete") && recvNamedCI(ci, "OverlayDB")
+	}
+	nFwd, nCb := 0, 0
+	for _, f := range ir.WithClosures(fn) {
+		reads := ir.Calls(f, func(ci ssa.CallInstruction) bool {
+			o := ir.CalleeObj(ci)
+			return o != nil && (o.Name() == "Get" || o.Name() == "Find" || o.Name() == "NewIterator")
+		})
+		c.Decide(len(reads) == 0, rule, f, "forwarding to the block overlay does not consult current contents", c.P.Rel(f.Pos()), sprintf("%d read(s)", len(reads)))
+		if f == fn {
+			continue
+		}
+		nCb++
+		nFwd += len(ir.Calls(f, isFwd))
+		var rets []ir.Sink
+		for _, b := range f.Blocks {
+			if len(b.Instrs) > 0 {
+				if r, ok := b.Instrs[len(b.Instrs)-1].(*ssa.Return); ok && b != f.Recover {
+					rets = append(rets, ir.Sink{Instr: r, Note: "return"})
+				}
+			}
+		}
+		eng.MustPassCall(c, rule, f, "OverlayDB.Put / OverlayDB.Delete (forward the entry)", isFwd, rets, "return of the per-entry callback", nil)
+	}
+	c.Floor("per-entry callbacks in CacheDB.Commit", nCb, 1)
+	c.Floor("forwarding calls in CacheDB.Commit", nFwd, 2)
 }
